@@ -143,3 +143,60 @@ M('c07_updates_in_feed', ['C07', 'C15'], ['C07-R3'], 'cluster updates piggybacke
 M('c07_custom_gate_dropped', ['C07', 'C16'], ['C07-R3'], 'custom broadcasts attached without asking the handler',
   (LIB, '            && header.message.allow_custom_broadcasts()\n            // Unless the broadcast handler says no\n            && self.broadcast_handler.should_add_broadcast_data(&dst);',
    '            && header.message.allow_custom_broadcasts();'))
+
+# ---------------------------------------------------------------- C08
+RUNTIME = 'src/runtime.rs'
+M('c08_memberdown_polarity', ['C08'], ['C08-R2'], 'MemberUp notified when the member went down',
+  (LIB, '        if summary.changed_active_set {\n            if summary.is_active_now {', '        if summary.changed_active_set {\n            if !summary.is_active_now {'))
+M('c08_memberup_without_change', ['C08'], ['C08-R2'], 'MemberUp/Down notified on every successful apply, not only on active-set changes',
+  (LIB, '        if summary.changed_active_set {\n            if summary.is_active_now {', '        if summary.apply_successful {\n            if summary.is_active_now {'))
+M('c08_rename_after_up', ['C08'], ['C08-R2'], 'Rename notified after MemberUp',
+  (LIB, '''        if let member::ConflictResult::Replaced(old) = summary.conflict {
+            #[cfg(feature = "tracing")]
+            tracing::debug!(
+                previous_id = tracing::field::debug(&old),
+                member_id = tracing::field::debug(&id),
+                "Renamed"
+            );
+            runtime.notify(Notification::Rename(&old, &id));
+        }
+
+''', ''),
+  (LIB, '''                runtime.notify(Notification::MemberDown(&id));
+            }
+        }
+''', '''                runtime.notify(Notification::MemberDown(&id));
+            }
+        }
+        if let member::ConflictResult::Replaced(old) = summary.conflict {
+            runtime.notify(Notification::Rename(&old, &id));
+        }
+'''))
+M('c08_summary_dropped_on_probe_failure', ['C08', 'C12'], ['C08-R3'], 'probe failure applies Suspect but never handles the summary',
+  (LIB, '                self.handle_apply_summary(summary, as_suspect, true, &mut runtime)?;\n', '                let _ = (summary, as_suspect);\n'))
+M('c08_was_active_after_write', ['C08'], ['C08-R4'], 'was_active is sampled after the record was modified',
+  (MEMBER, '            let was_active = known_member.is_active();\n\n            let (apply_successful, conflict) = if id_conflict {',
+   '            let (apply_successful, conflict) = if id_conflict {'),
+  (MEMBER, '            let is_active_now = known_member.is_active();\n            let changed_active_set', '            let was_active = known_member.is_active();\n            let is_active_now = known_member.is_active();\n            let changed_active_set'))
+M('c08_num_active_on_every_apply', ['C08'], ['C08-R4'], 'num_active bumped whenever the update is active, not only when the set changed',
+  (MEMBER, '            if changed_active_set {\n                // XXX Overzealous checking\n                if is_active_now {', '            if apply_successful {\n                // XXX Overzealous checking\n                if is_active_now {'))
+M('c08_undead_without_defunct', ['C08', 'C13'], ['C08-R5'], 'become_undead only notifies Defunct when it was connected',
+  (LIB, '        runtime.notify(Notification::Defunct);', '        if self.probe.validate() {\n            runtime.notify(Notification::Defunct);\n        }'))
+M('c08_connected_without_members', ['C08'], ['C08-R5', 'C06-R2'], 'Active reported from the idle state without any active member',
+  (LIB, '                if self.members.num_active() > 0 {\n                    self.become_connected(runtime);', '                if self.members.num_active() > 0 || self.updates_backlog() > 3 {\n                    self.become_connected(runtime);'))
+M('c08_no_adjust_after_timeout', ['C08', 'C11'], ['C08-R6'], 'suspicion timeout no longer re-evaluates the connection state',
+  (LIB, '                        // Member went down we might need to adjust our internal state\n                        self.adjust_connection_state(&mut runtime);\n', ''))
+M('c08_rejoin_before_change', ['C08', 'C10'], ['C08-R5'], 'Rejoin notified even if change_identity failed',
+  (LIB, '                self.change_identity(new_identity.clone(), &mut runtime)?;\n\n                runtime.notify(Notification::Rejoin(&new_identity));',
+   '                runtime.notify(Notification::Rejoin(&new_identity));\n                self.change_identity(new_identity.clone(), &mut runtime)?;\n'))
+M('c08_accumulating_lifo', ['C08'], ['C08-R7'], 'AccumulatingRuntime yields notifications last-in first-out',
+  (RUNTIME, '        self.notifications.pop_front()', '        self.notifications.pop_back()'))
+M('c08_accumulating_stale_bytes', ['C08'], ['C08-R7'], 'AccumulatingRuntime keeps previous bytes in its scratch buffer',
+  (RUNTIME, '        let packet = self.buf.split().freeze();', '        let packet = self.buf.clone().freeze();'))
+M('c08_idle_notified_in_reset', ['C08'], ['C08-R1', 'C08-R5'], 'reset() notifies Idle (identity change must be silent)',
+  (LIB, '''    fn reset(&mut self) {
+        self.connection_state = ConnectionState::Disconnected;''', '''    fn reset(&mut self) {
+        if self.connection_state == ConnectionState::Connected {
+            self.probe.clear();
+        }
+        self.connection_state = ConnectionState::Connected;'''))
